@@ -16,6 +16,7 @@ from rules.core import pat, rt
 from rules.core.facts import Operand, Place
 
 CRATES = ["aranya_runtime"]
+THOROUGH_CONFIGS = ["lowmem"]   # thorough tier: the same rules on the low-mem-usage build
 SH = rt.SH
 
 
